@@ -997,7 +997,7 @@ func runInChild() bool {
 	out.Flush()
 	cmd := exec.Command(exe, os.Args[1:]...)
 	cmd.Env = append(os.Environ(), "VERIF_NET_CHILD=1")
-	cmd.Stdout = os.Stdout
+	cmd.Stdout = caseOut
 	var eb strings.Builder
 	cmd.Stderr = &eb
 	if err := cmd.Run(); err != nil {
@@ -1006,7 +1006,7 @@ func runInChild() bool {
 			tail = tail[:3000]
 		}
 		fmt.Fprintln(os.Stderr, "harness child died:", err, tail)
-		fmt.Fprintln(os.Stdout, "(scn harness-child-died (cfg client 0 0 0 0 0 0 0 0 0 # 0) () (orc) (subs 0 ()) (rorc) (obs (panic 0)))")
+		fmt.Fprintln(caseOut, "(scn harness-child-died (cfg client 0 0 0 0 0 0 0 0 0 # 0) () (orc) (subs 0 ()) (rorc) (obs (panic 0)))")
 	}
 	return true
 }
